@@ -8,7 +8,7 @@ import ast
 from ..absval import Const, norm, const_of, Bytes, Seq, BitV, Lin, Sym, Unknown
 from ..interp import Ref, Raised, Limits
 from ..tables import regmap, contract
-from ..model import AnalysisError, iter_own_nodes
+from ..model import AnalysisError, iter_own_nodes, call_edges
 from .radio import Radio, regname, bits8, term_eq, fmt_bits, regwrites, lift
 from .c03 import Agg, value_matches
 from .c10 import cmds, spi_events
@@ -188,8 +188,10 @@ def user_addr_writers(radio, agg, p0f, lite=False):
                     for tt in (t.elts if isinstance(t, ast.Tuple) else [t]):
                         if isinstance(tt, ast.Attribute) and tt.attr == p0f:
                             n += 1
+                            from .common import allowed_via_callers
+                            okw, why = allowed_via_callers(radio.prog, fi, allowed)
                             agg.add("R08.1", fi, "only open_rx_pipe/close_rx_pipe (and the constructor) store the user's pipe-0 address",
-                                    fi.name in allowed, "%s assigns self.%s" % (fi.qualname, p0f), node)
+                                    okw, "%s assigns self.%s%s" % (fi.qualname, p0f, why), node)
     f_open = radio.prog.method(radio.cls, "open_rx_pipe")
     f_close = radio.prog.method(radio.cls, "close_rx_pipe")
     for p in range(6):
@@ -248,9 +250,46 @@ def ce_writers(radio, agg):
                     hit = True
             if hit:
                 n += 1
-                agg.add("R08.3", fi, "CE is driven only by the role-change / TX-pulse / context / carrier functions", fi.name in CE_ALLOWED,
-                        "%s drives CE: a CE change in a function callable in RX mode interrupts reception" % fi.qualname)
+                ok, why = ce_driver_allowed(radio, fi, set())
+                agg.add("R08.3", fi, "CE is driven only by the role-change / TX-pulse / context / carrier functions", ok,
+                        "%s drives CE%s: a CE change in a function callable in RX mode interrupts reception" % (fi.qualname, why))
     return n
+
+
+def _all_funcs(P):
+    for c in P.all_classes():
+        for f in c.methods.values():
+            yield f, c
+        for p in c.props.values():
+            for f in (p.getter, p.setter):
+                if f is not None and f.cls is c:
+                    yield f, c
+
+
+def ce_driver_allowed(radio, fi, seen):
+    """a CE write is legitimate in the listed public functions and in private helpers that only those functions call
+    (a role-change body split into helpers drives CE at the same protocol points)"""
+    if fi.name in CE_ALLOWED:
+        return True, ""
+    if not fi.name.startswith("_") or fi.name.startswith("__") or fi.qualname in seen:
+        return False, ""
+    seen = seen | {fi.qualname}
+    P = radio.prog
+    callers = []
+    for g, c in _all_funcs(P):
+        if g is fi:
+            continue
+        for _n, t in call_edges(P, g, c):
+            if t.kind == "func" and t.func is fi:
+                callers.append(g)
+                break
+    if not callers:
+        return False, " and is never called inside the package"
+    for g in callers:
+        ok, _w = ce_driver_allowed(radio, g, seen)
+        if not ok:
+            return False, " and is called by %s" % g.qualname
+    return True, ""
 
 
 def sequences(radio, agg, p0f, lite=False):
